@@ -60,6 +60,12 @@ def build_jobs(tier, rep):
             for b in (bs if not q else bs[(k % 4)::4]):
                 jobs.append((x + "\n" + y + "\n", b, CFGS[k % len(CFGS)]))
                 k += 1
+    # stratum 4: A defines a label, B begins with a line in definition syntax (same or another label, safe or
+    # rejected destination): what B's first line is must not depend on A's definitions
+    hasdef = [d for d in short if re.search(r"(^|\n)\[[aA]\]: ", d)]
+    defb = [d for d in short if re.match(r"\[[aA]\]:", d)]
+    for k in range(6000 if q else 80000):
+        jobs.append((rnd.choice(hasdef), rnd.choice(defb), CFGS[k % len(CFGS)]))
     rep.cov["bounds"] = {"A_B_pool": len(short), "A_three_line_pool": len(three), "pairs_executed": len(jobs),
                          "pairs_possible": len(short) ** 2}
     rep.cov["exhaustive"] = False
